@@ -23,7 +23,9 @@ package operator
 //@   frame_only
 
 //@ func (r *ClusterReconciler) reconcileBrokerService$1
-//@   writes_unconditionally [C42.broker_service.assigned_fields_unconditional] svc
+// The first clause is refuted for ObjectMeta.Annotations (recorded finding); the second one pins the finding to
+// that field: any other conditionally assigned field of the Service is still reported.
+//@   writes_unconditionally [C42.broker_service.assigned_fields_unconditional] svc ;; [C42.broker_service.assigned_fields_unconditional_except_annotations] svc except ObjectMeta.Annotations
 //@   deterministic [C42.broker_service.no_clock_random_or_map_order] except copyStringMap, cloneResourceList
 //@   frame_only
 
